@@ -163,7 +163,10 @@ def _compare(env, got, ref, tagset, what):
             )
 
 
-def resume_equals_uninterrupted(n, classes, j_max, with_lists):
+TAGSETS = [("bitstrings", "occupation", "correlation_matrix", "energy"), ("energy",), ("occupation",)]
+
+
+def resume_equals_uninterrupted(n, classes, j_max, with_lists, tagsets=TAGSETS):
     ids = IDS3[:n]
 
     def fn(env):
@@ -175,10 +178,7 @@ def resume_equals_uninterrupted(n, classes, j_max, with_lists):
         cls_name = env.choice("implementation", classes)
         perm = env.choice("qubit_permutation", list(itertools.permutations(range(n))))
         optimize = env.boolean("optimize_qubit_ordering")
-        tagset = env.choice(
-            "observables",
-            [("bitstrings", "occupation", "correlation_matrix", "energy"), ("energy",), ("occupation",)],
-        )
+        tagset = env.choice("observables", list(tagsets))
         j_left = env.choice("remaining steps", list(range(0, j_max + 1)))
         k_done = 1
         bitkey = env.choice("sampled bitstring", BITKEYS[n]) if "bitstrings" in tagset else None
@@ -416,12 +416,15 @@ def cases(tier):
     quick = tier == "quick"
     out = []
     all_cls = ["MPSBackendImpl", "NoisyMPSBackendImpl", "DMRGBackendImpl"]
-    grid = [(2, all_cls, 1, False), (3, ["MPSBackendImpl"], 1, False)] if quick else [(2, all_cls, 3, True), (3, all_cls, 2, True)]
-    for n, classes, j_max, lists in grid:
+    if quick:
+        grid = [(2, all_cls, 1, False, TAGSETS[:2]), (3, ["MPSBackendImpl"], 1, False, TAGSETS[:1])]
+    else:
+        grid = [(2, all_cls, 3, True, TAGSETS), (3, all_cls, 2, True, TAGSETS)]
+    for n, classes, j_max, lists, tagsets in grid:
         out.append(
             Case(
                 f"resume_equals_uninterrupted_n{n}",
-                resume_equals_uninterrupted(n, classes, j_max, lists),
+                resume_equals_uninterrupted(n, classes, j_max, lists, tagsets),
                 covers=COVERS,
                 bounds={
                     "atoms": n,
@@ -429,7 +432,7 @@ def cases(tier):
                     "optimize_qubit_ordering": "True/False",
                     "implementation": classes,
                     "remaining_steps": f"0..{j_max}",
-                    "observables": "all four | energy only | occupation only",
+                    "observables": [list(t) for t in tagsets],
                     "vector results as lists": lists,
                 },
                 canaries=["reference_without_unpermute", "file_must_remain", "reference_differs_in_last_step"],
